@@ -68,8 +68,6 @@ package ntlm
 //@   ensures[C14] emptyMessage: message.NtlmMessage == "" ==> result1 != nil && !result0.Authenticated
 //@   ensures[C14] proof: result0 != nil && (result0.Authenticated ==> #pamOK && #uiPass != "" && result0.Username == #uiUser && #uiSession == #pamSession)
 //@   ensures[C14] inv: cacheInv(h)
-//@   ensures[C14] invA: cacheInvA(h)
-//@   ensures[C14] invB: cacheInvB(h)
 //@   nopanic[C10]
 
 //@ func (*NTLMAuth).removeContext
